@@ -17,12 +17,13 @@ with Inv := Win /\\ memory variables within their declared ranges.
 `check_concrete` evaluates the same obligations on one concrete member by plain
 enumeration (no z3); it is the replay oracle.
 """
+import os
 import itertools
 import time
 
 from vlib import core, link
 
-SOLVER_MS = 900000
+SOLVER_MS = 900000 * int(os.environ.get('VERIF_Z3_SCALE', '1'))
 
 
 def construct(aut, objective):
